@@ -40,7 +40,7 @@ class DetLoop(asyncio.SelectorEventLoop):
         """The task a ready handle will step, if it is a task step/wakeup."""
         cb = getattr(handle, '_callback', None)
         owner = getattr(cb, '__self__', None)
-        if isinstance(owner, asyncio.Task):
+        if isinstance(owner, (asyncio.Task, asyncio.tasks._PyTask)):
             return owner
         return None
 
